@@ -1,0 +1,258 @@
+//! Verification hooks for deterministic simulation with fault injection.
+//!
+//! This module only exists when the crate is compiled with `--cfg delaunay_verif`.
+//! With the guard off none of this code (and none of the call sites) is compiled, so
+//! shipped behaviour is unchanged.
+//!
+//! All state is per-thread (`thread_local!`), so one simulated run executing on one OS
+//! thread owns its plan exclusively. A thread that never installs a plan sees the
+//! library's normal behaviour even when the guard is on:
+//!
+//! * failpoints are disarmed (`fail::hit` returns `false`),
+//! * knobs return their default,
+//! * `make_uuid` draws from the OS,
+//! * ticks are counted but no ceiling is enforced.
+
+#![forbid(unsafe_code)]
+
+/// Named failpoints ("internal error return forced at this point").
+pub mod fail {
+    use std::cell::RefCell;
+
+    #[derive(Default)]
+    struct State {
+        /// Count hits per site (record mode and armed mode both count).
+        counting: bool,
+        /// `(site, hit_index)` pairs at which `hit` returns `true` (0-based per site).
+        armed: Vec<(String, u64)>,
+        /// Hit counters per site since the last `begin`.
+        counts: Vec<(&'static str, u64)>,
+        /// Sites that actually fired since the last `begin`, in firing order.
+        fired: Vec<(&'static str, u64)>,
+        /// Order in which sites were hit (site, per-site index), capped.
+        trace: Vec<(&'static str, u64)>,
+    }
+
+    thread_local! {
+        static STATE: RefCell<State> = RefCell::new(State::default());
+    }
+
+    const TRACE_CAP: usize = 4096;
+
+    /// Start a new observation window: clears counters, installs the armed set.
+    /// With an empty `armed` set this is pure record mode.
+    pub fn begin(armed: &[(String, u64)]) {
+        STATE.with(|s| {
+            let mut s = s.borrow_mut();
+            s.counting = true;
+            s.armed = armed.to_vec();
+            s.counts.clear();
+            s.fired.clear();
+            s.trace.clear();
+        });
+    }
+
+    /// Stop counting and disarm. Returns `(per-site hit counts, fired list, ordered trace)`.
+    #[must_use]
+    pub fn end() -> (Vec<(&'static str, u64)>, Vec<(&'static str, u64)>, Vec<(&'static str, u64)>) {
+        STATE.with(|s| {
+            let mut s = s.borrow_mut();
+            s.counting = false;
+            s.armed.clear();
+            (
+                std::mem::take(&mut s.counts),
+                std::mem::take(&mut s.fired),
+                std::mem::take(&mut s.trace),
+            )
+        })
+    }
+
+    /// Called at a failpoint site. Returns `true` when the simulator asked this
+    /// particular hit of this site to fail.
+    #[must_use]
+    pub fn hit(site: &'static str) -> bool {
+        STATE.with(|s| {
+            let mut s = s.borrow_mut();
+            if !s.counting {
+                return false;
+            }
+            let idx = if let Some(entry) = s.counts.iter_mut().find(|(name, _)| *name == site) {
+                let i = entry.1;
+                entry.1 += 1;
+                i
+            } else {
+                s.counts.push((site, 1));
+                0
+            };
+            if s.trace.len() < TRACE_CAP {
+                s.trace.push((site, idx));
+            }
+            let fire = s.armed.iter().any(|(name, i)| name == site && *i == idx);
+            if fire {
+                s.fired.push((site, idx));
+            }
+            fire
+        })
+    }
+}
+
+/// Budget overrides ("knobs").
+pub mod knob {
+    use std::cell::RefCell;
+
+    thread_local! {
+        static KNOBS: RefCell<Vec<(String, usize)>> = const { RefCell::new(Vec::new()) };
+    }
+
+    /// Install the complete knob set for this thread (empty = all defaults).
+    pub fn set_all(knobs: &[(String, usize)]) {
+        KNOBS.with(|k| *k.borrow_mut() = knobs.to_vec());
+    }
+
+    /// Read a knob; `default` is the shipped constant.
+    #[must_use]
+    pub fn get(name: &str, default: usize) -> usize {
+        KNOBS.with(|k| {
+            k.borrow()
+                .iter()
+                .find(|(n, _)| n == name)
+                .map_or(default, |(_, v)| *v)
+        })
+    }
+
+    /// Whether a knob is overridden on this thread.
+    #[must_use]
+    pub fn is_set(name: &str) -> bool {
+        KNOBS.with(|k| k.borrow().iter().any(|(n, _)| n == name))
+    }
+}
+
+/// Seeded replacement for OS randomness in `make_uuid`.
+pub mod uuid {
+    use std::cell::Cell;
+
+    thread_local! {
+        static STATE: Cell<Option<u64>> = const { Cell::new(None) };
+        static DRAWS: Cell<u64> = const { Cell::new(0) };
+    }
+
+    /// Install (`Some(seed)`) or remove (`None`) the seeded UUID stream for this thread.
+    pub fn seed(seed: Option<u64>) {
+        STATE.with(|s| s.set(seed));
+    }
+
+    /// Number of UUIDs drawn from the seeded stream on this thread.
+    #[must_use]
+    pub fn draws() -> u64 {
+        DRAWS.with(Cell::get)
+    }
+
+    fn splitmix(state: &mut u64) -> u64 {
+        *state = state.wrapping_add(0x9E37_79B9_7F4A_7C15);
+        let mut z = *state;
+        z = (z ^ (z >> 30)).wrapping_mul(0xBF58_476D_1CE4_E5B9);
+        z = (z ^ (z >> 27)).wrapping_mul(0x94D0_49BB_1331_11EB);
+        z ^ (z >> 31)
+    }
+
+    /// Next UUID (version 4, RFC 4122 variant) from the seeded stream, if installed.
+    #[must_use]
+    pub fn next() -> Option<::uuid::Uuid> {
+        STATE.with(|s| {
+            let mut st = s.get()?;
+            let hi = splitmix(&mut st);
+            let lo = splitmix(&mut st);
+            s.set(Some(st));
+            DRAWS.with(|d| d.set(d.get() + 1));
+            let mut bytes = [0u8; 16];
+            bytes[..8].copy_from_slice(&hi.to_be_bytes());
+            bytes[8..].copy_from_slice(&lo.to_be_bytes());
+            bytes[6] = (bytes[6] & 0x0F) | 0x40;
+            bytes[8] = (bytes[8] & 0x3F) | 0x80;
+            Some(::uuid::Uuid::from_bytes(bytes))
+        })
+    }
+}
+
+/// Work-tick clock: the simulator's notion of time for bounded-work claims.
+pub mod tick {
+    use std::cell::{Cell, RefCell};
+
+    /// Panic payload used when the per-operation tick ceiling is exceeded.
+    pub const CEILING_MARKER: &str = "delaunay_verif: tick ceiling exceeded";
+
+    thread_local! {
+        static TOTAL: Cell<u64> = const { Cell::new(0) };
+        static LIMIT: Cell<u64> = const { Cell::new(u64::MAX) };
+        static KINDS: RefCell<Vec<(&'static str, u64)>> = const { RefCell::new(Vec::new()) };
+    }
+
+    /// Reset the counter and install a ceiling (`u64::MAX` = none).
+    pub fn reset(limit: u64) {
+        TOTAL.with(|t| t.set(0));
+        LIMIT.with(|l| l.set(limit));
+        KINDS.with(|k| k.borrow_mut().clear());
+    }
+
+    /// Ticks since the last reset.
+    #[must_use]
+    pub fn total() -> u64 {
+        TOTAL.with(Cell::get)
+    }
+
+    /// Per-kind tick counts since the last reset.
+    #[must_use]
+    pub fn by_kind() -> Vec<(&'static str, u64)> {
+        KINDS.with(|k| k.borrow().clone())
+    }
+
+    /// One unit of work of the given kind.
+    ///
+    /// # Panics
+    ///
+    /// Panics with [`CEILING_MARKER`] when the installed ceiling is exceeded.
+    pub fn tick(kind: &'static str) {
+        let t = TOTAL.with(|t| {
+            let v = t.get() + 1;
+            t.set(v);
+            v
+        });
+        KINDS.with(|k| {
+            let mut k = k.borrow_mut();
+            if let Some(e) = k.iter_mut().find(|(n, _)| *n == kind) {
+                e.1 += 1;
+            } else {
+                k.push((kind, 1));
+            }
+        });
+        let limit = LIMIT.with(Cell::get);
+        assert!(t <= limit, "{CEILING_MARKER} (kind={kind}, ticks={t}, limit={limit})");
+    }
+}
+
+/// "Rare condition was hit" probes (coverage counters, never influence behaviour).
+pub mod probe {
+    use std::cell::RefCell;
+
+    thread_local! {
+        static PROBES: RefCell<Vec<(&'static str, u64)>> = const { RefCell::new(Vec::new()) };
+    }
+
+    /// Record that a named branch was taken.
+    pub fn hit(name: &'static str) {
+        PROBES.with(|p| {
+            let mut p = p.borrow_mut();
+            if let Some(e) = p.iter_mut().find(|(n, _)| *n == name) {
+                e.1 += 1;
+            } else {
+                p.push((name, 1));
+            }
+        });
+    }
+
+    /// Take and clear the probe counters of this thread.
+    #[must_use]
+    pub fn take() -> Vec<(&'static str, u64)> {
+        PROBES.with(|p| std::mem::take(&mut *p.borrow_mut()))
+    }
+}
